@@ -31,6 +31,7 @@ ASSUMPTIONS = [
     "composition theorem C03_pass_sound: per-transaction completeness and soundness of exploration (C01/C02), query = path constraints (C11), truthful external solver, sound unsat-core cache (C16) and exact refinement (C04/C11) are Section hypotheses visible in the statement; 36-byte revert data concrete (documented caveat, shown necessary by C03_pass_sound_symbolic_code_refuted)",
     "C03_sibling_paths_do_not_share_mutable_state and C03_refinement_is_the_evm_operation restate theorems proved for C20 / C11 (Proofs/IsolationProofs.v, Proofs/SmtTextProofs.v) over Gen/GenCopies.v and Gen/GenRefine.v; their need tables / operation semantics are the specifications of those properties",
     "every submitted assertion query has its answer in ctx.solver_outputs when the verdict is computed (thread pool semantics: C05/C17)",
+    "no stuck-path solve was interrupted by the executor shutdown (hypothesis `forall q, solve_low q <> S_SHUTDOWN` of C03_pass_sound): ShutdownError ends the path loop, and is raised only by the early exit after a valid counterexample",
     "the reference interpreter (coq/Spec/Evm.v, extracted) is the EVM oracle; concrete executions use the canonical ABI encoding of the arguments",
     "the extracted model and driver are faithful to the Coq definitions (extraction is trusted)",
 ]
